@@ -6,7 +6,7 @@ def _c17_nontrivial(req, out):
     t = req.split(" ")
     if len(t) < 7:
         return False
-    return ("," in t[4] or "," in t[5]) and "," in t[-1 if not t[-1].startswith("CLASS:") else -2]
+    return ("," in t[4] or "," in t[5]) and "," in t[-1]
 
 
 EXTRACT = {
@@ -19,15 +19,15 @@ CFG = {
     "level": "proof",
     "level_text": "Lean 4 theorems over a line-by-line model of AdvancePositions / CompactEndPositions / OpenPositions / "
                   "EndPositions (build loops, cumulative ranks, select samples, SequentialCursor with its three get "
-                  "paths): SeqInv preserved by every path (inv_step), answers independent of arbitrary lookup lists "
-                  "(history_irrelevant), end_get_spec in full (own end / last earlier non-zero end / None, both variants), "
-                  "open_get_exact_partial: start positions exact for every history EXCEPT a position equal to text_len "
-                  "when text_len % 64 == 0 -- there the full statement is refuted on the model (finding F4, "
-                  "open_get_exact_full_statement_false). Not covered by theorems (correspondence only): "
-                  "find_last_open_at_text_pos, AdvancePositionsCursor, YamlIndex BP rank glue. "
+                  "paths), with the per-word kernels discharged by C02 (popc_eq, select_ctz_eq): SeqInv preserved by "
+                  "every path (inv_step), answers independent of arbitrary lookup lists (history_irrelevant), "
+                  "open_get_exact in full (every recorded start <= text_len, every history, compact and dense; holds "
+                  "since the repair of F4), end_get_spec in full (own end / last earlier non-zero end / None, both "
+                  "variants). Not covered by theorems (correspondence only): find_last_open_at_text_pos, "
+                  "AdvancePositionsCursor, YamlIndex BP rank glue. "
                   "Tie: differential correspondence incl. built tables and per-lookup cursor state.",
-    "level_note": "Trusts Lean kernel, the hand-written model (tied by the differential harness incl. per-lookup cursor "
-                  "state and built bitmaps), per-word primitives count_ones/select_in_word as parameters (C02). "
+    "level_note": "Trusts Lean kernel (+ the one bv_decide certificate inherited from C02.select_ctz_eq), the hand-written "
+                  "model (tied by the differential harness incl. per-lookup cursor state and built bitmaps). "
                   "u32 accumulators of build_cumulative_rank modelled unbounded.",
     "technique": "Lean 4 proof (state-machine invariant + induction over arbitrary lookup lists); differential correspondence vs compiled model",
     "variants": [{"features": []}],
@@ -35,10 +35,11 @@ CFG = {
     "lean_files": ["SuccinctlyVerif/Props/C17.lean", "SuccinctlyVerif/Proof/YamlPos.lean",
                    "SuccinctlyVerif/Model/YamlPos.lean", "SuccinctlyVerif/Model/Scan.lean"],
     "generated": ["common:", "C17:"],
+    "allow_bv_decide": True,  # only through C02.select_ctz_eq (Proof/Kernels clear_lowest certificate)
     "required_theorems": ["SV.Props.C17." + n for n in (
         "seqInv_default", "inv_step", "history_irrelevant", "history_answers", "flavors_ok",
-        "open_get_exact_partial", "open_get_exact_under_capacity", "open_get_exact_full_statement_false",
-        "f4_witness", "end_get_spec", "end_inherited_le_start", "open_history_irrelevant", "sample_rate_pos")],
+        "open_get_exact", "open_get_exact_under_capacity", "kernel_popc", "kernel_select",
+        "end_get_spec", "end_inherited_le_start", "open_history_irrelevant", "sample_rate_pos")],
     "nontrivial": _c17_nontrivial,
     "rule": "request = (route, text_len, start positions, end positions, bp, lookup list); distinct request lines "
             "with at least two positions and at least two lookups",
